@@ -15,7 +15,10 @@ META = {
             "code by running the compiled Lean model on the same arguments as the Wa run.  The full statement (agreement for EVERY argument of every function) is "
             "decided only by exploration; the theorems cover the stated algebraic properties of the modelled functions.",
     "note": "Trusted: Go's standard library (reference), the driver generator and its printing helpers (written in the driver, no library on the printing path), "
-            "the Lean kernel.  Not proved: float formatting/parsing, md5, containers, Unicode tables (executed for correspondence only).",
+            "the Lean kernel; for the math/bits theorems additionally bv_decide's native axioms (SAT certificates checked by compiled Lean code).  The Lean models of "
+            "hex/base64/base32/utf8/crc32/adler32/fnv/strconv integers/bits/sort are hand-written from the .wa sources with their tables REGENERATED from them "
+            "(Gen/C14Tables.lean) and are tied to the port by running wamodel_c14 on the arguments of the Wa run.  Not proved (executed for correspondence only): float "
+            "formatting/parsing, md5 (an executable RFC 1321 reference in Lean, no theorem), bits.Div64, containers, Unicode tables, slicing-by-8 CRC.",
     "technique": "single-source differential execution Wa vs Go + Lean 4 specifications/theorems for codecs, bits, hashes, integer conversion, sorting",
 }
 
@@ -784,6 +787,8 @@ def run(ctx):
         "distribution": dist,
         "api": api_notes,
         "divergence_keys": {k: len(v) for k, v in sorted(keys.items())},
+        "checker_cmd": "cd /verif/lean && lake build " + " ".join(m for m, _, _ in PROOF_MODULES) + " && lake env lean .audit/WaVerif_Props_C14_all.lean"
+                       "   (#audit_module prints each theorem's axioms; the math/bits theorems carry bv_decide's native axioms)",
     }
     return ctx.finish("exploration", cov,
                       assumptions=["Go %s standard library is the reference" % subprocess.run(["go", "version"], stdout=subprocess.PIPE, text=True).stdout.split()[2],
